@@ -157,6 +157,12 @@ static void COCSdoTransferFinalize(CO_CSDO *csdo)
         code = csdo->Tfer.Abort;
         call = csdo->Tfer.Call;
 
+        /* Stop the timeout supervision of this transfer */
+        if (csdo->Tfer.Tmr >= 0) {
+            (void)COTmrDelete(&(csdo->Node->Tmr), csdo->Tfer.Tmr);
+            csdo->Tfer.Tmr = -1;
+        }
+
         if (call != NULL) {
             call(csdo, idx, sub, code);
         }
@@ -186,6 +192,8 @@ static void COCSdoTimeout(void *parg)
 
     csdo = (CO_CSDO *)parg;
     if (csdo->State == CO_CSDO_STATE_BUSY) {
+        /* One-shot timer is already released */
+        csdo->Tfer.Tmr = -1;
         /* Abort SDO transfer because of timeout */
         COCSdoAbort(csdo, CO_SDO_ERR_TIMEOUT);
         /* Finalize aborted transfer */
